@@ -71,3 +71,10 @@ package cmap
 //@ assume func (Map).GetOrWait
 //@ assume func (Map).Set
 //@ assume func (Map).Get
+
+// Contains: a key is contained when it has a VALUE (present), not when callers are merely waiting for it
+// (a placeholder registered by GetOrWait) — the sequential map it stands for has no entry in that case.
+//@ func (shard).Contains
+//@   requires s != nil && s.m != nil
+//@   opt atomic=lock
+//@   ensures present_not_awaited [C15]: result == (in(key, s.m) && s.m[key].Wait == nil)
